@@ -599,6 +599,8 @@ def write_evidence(ctx, level, rule, checker_cmd, extra_cov=None, assumptions=()
         "trusted_base": TRUSTED_BASE_COMMON + list(assumptions),
         "theorems": ctx.theorems,
         "axioms_reported_by_Print_Assumptions": ctx.axioms_seen,
+        "coqchk": ({"axioms": getattr(ctx, "coqchk_axioms", []), "wall_s": getattr(ctx, "coqchk_wall", None)}
+                   if hasattr(ctx, "coqchk_wall") else "not run in this tier (thorough tier only)"),
         "evaluations": int(ctx.stats.get("cases", 0)),
         "distinct_nontrivial": int(ctx.stats.get("distinct_nontrivial", ctx.stats.get("cases", 0))),
         "rule": rule,
@@ -623,6 +625,43 @@ def write_evidence(ctx, level, rule, checker_cmd, extra_cov=None, assumptions=()
     return p
 
 
+def coqchk_props(ctx, allowed_axioms=()):
+    """thorough tier: the compiled Props/<id>.vo and everything it depends on is re-checked by the
+    independent checker coqchk; its context summary must list no axiom outside the allow-list, no
+    type-in-type, no unsafe fixpoints, no assumed positivity."""
+    t = time.time()
+    rc, out = sh(["coqchk", "-silent", "-o", "-Q", ".", "OxiVerif", f"OxiVerif.Props.{ctx.pid}"], cwd=COQ, timeout=3000)
+    ctx.coqchk_wall = round(time.time() - t, 1)
+    open(os.path.join(ctx.workdir, "coqchk.log"), "w").write(out)
+    if rc != 0 or "CONTEXT SUMMARY" not in out:
+        ctx.proof_failure = "coqchk failed: " + out[-400:]
+        return False
+    summ = out.split("CONTEXT SUMMARY", 1)[1]
+    sections = {}
+    cur = None
+    for l in summ.split("\n"):
+        m = re.match(r"^\* ([^:]+):\s*(.*)$", l)
+        if m:
+            cur = m.group(1).strip()
+            sections[cur] = [m.group(2).strip()] if m.group(2).strip() else []
+        elif cur and l.strip():
+            sections[cur].append(l.strip())
+    axioms = [a for a in sections.get("Axioms", []) if a != "<none>"]
+    names = [re.split(r"\s|:", a)[0] for a in axioms]
+    extra = [a for a in names if a not in allowed_axioms and a.split(".")[-1] not in [x.split(".")[-1] for x in allowed_axioms]]
+    ctx.coqchk_axioms = names
+    for key in ("Constants/Inductives relying on type-in-type", "Constants/Inductives relying on unsafe (co)fixpoints",
+                "Inductives whose positivity is assumed"):
+        if [x for x in sections.get(key, []) if x != "<none>"]:
+            ctx.proof_failure = f"coqchk: {key}: {sections[key][:3]}"
+            return False
+    if extra:
+        ctx.proof_failure = f"coqchk reports axioms outside the allow-list: {extra}"
+        return False
+    log(f"coqchk ok ({ctx.coqchk_wall} s): axioms {names or 'none'}")
+    return True
+
+
 def proof_gate(ctx, allowed_axioms=()):
     """Step 1 of every check.  A proof obligation that no longer checks is reported as a
     violation with no failing input (the static part can not produce one)."""
@@ -633,6 +672,8 @@ def proof_gate(ctx, allowed_axioms=()):
         log("proof gate skipped (VERIF_TAG set: seeded-change evaluation)")
         return True
     ok = coq_check_props(ctx, allowed_axioms)
+    if ok and ctx.tier == "thorough":
+        ok = coqchk_props(ctx, allowed_axioms)
     if not ok:
         report_violation(
             ctx,
